@@ -112,5 +112,9 @@ def run(rep):
         for res in R.file_name_cases(fmt):
             rep.add_bounded(f"{P}/bounded.{res['name']}", res['ok'], res['detail'], replay={'kind': 'c06.file_name', 'fmt': fmt, 'name': res['name']})
             n += 1
+    for fmt in ('csv', 'excel', 'aif'):
+        for res in R.registry_cases(fmt):
+            rep.add_bounded(f"{P}/bounded.{res['name']}", res['ok'], res['detail'], replay={'kind': 'c06.registry', 'fmt': fmt, 'name': res['name']})
+            n += 1
     rep.extra_cov['explanation'] = (f"codec round trips over enumerated finite domains and static field correspondences are discharged by evaluation; "
                                     f"{n} real CSV/Excel/AIF round trips are a bounded stand-in: this property is decided only up to the bound")
